@@ -196,6 +196,9 @@ class Scn:
         self.docpath = None
         self.decoys = {}       # path -> why it must never be opened (also part of self.files: the model sees them)
         self.kinds = {}        # path -> explicit kind (dtd / pe / ent / schema) where the name does not tell
+        self.netpath = {}      # URL -> file holding what the in-memory net accessor serves for it (keys of self.files
+                               # may be URLs: the model's [fs] maps URL texts as well)
+        self.net_base = None   # scheme://authority/c19/ of a document that lives on the (in-memory) network
 
     def p(self, rel):
         return os.path.join(self.dir, rel)
@@ -220,7 +223,114 @@ class Scn:
         doc["sys"] = self.docpath if sys_form == "path" else "file://" + urllib.parse.quote(self.docpath, safe="/")
         self.doc = doc
 
+    def add_net(self, rel, content, kind=None):
+        """a resource of a network document: served for <net_base><tag>/<rel>, stored under <dir>/<rel>"""
+        url = self.net_base + self.tag + "/" + rel
+        self.files[url] = content
+        self.netpath[url] = self.p(rel)
+        if kind:
+            self.kinds[url] = kind
+        return url
+
+    def setdoc_net(self, rel, doc):
+        doc = dict(doc)
+        doc["sys"] = self.net_base + self.tag + "/" + rel
+        self.doc = doc
+        self.docpath = doc["sys"]              # what the oracle expects as first resource touched
+        self.realdoc = self.p(rel)
+        self.netpath[doc["sys"]] = self.realdoc
+
+    def serve_lines(self):
+        return ["serve %s %s" % (u, p) for u, p in sorted(self.netpath.items())]
+
     def write(self):
+        realdoc = getattr(self, "realdoc", self.docpath)
+        os.makedirs(os.path.dirname(realdoc), exist_ok=True)
+        with open(realdoc, "w", encoding="utf-8") as f:
+            f.write(xml_doc(self.doc))
+        for key, c in self.files.items():
+            path = self.netpath.get(key, key)
+            os.makedirs(os.path.dirname(path), exist_ok=True)
+            with open(path, "w", encoding="utf-8") as f:
+                f.write(xml_content(c))
+
+
+R = lambda n: ("R", n)
+
+
+class Scn:
+    """one scenario: a document plus the files it may reach; everything lives under <root>/<tag>/"""
+
+    SUFFIX, FORM = "", "path"
+
+    def __init__(self, root, tag, note):
+        self.base_tag = tag
+        tag = tag + Scn.SUFFIX
+        self.root, self.tag, self.note = root, tag, note
+        self.dir = os.path.join(root, tag)
+        self.files = {}        # absolute path -> econtent
+        self.doc = None
+        self.docpath = None
+        self.decoys = {}       # path -> why it must never be opened (also part of self.files: the model sees them)
+        self.kinds = {}        # path -> explicit kind (dtd / pe / ent / schema) where the name does not tell
+        self.netpath = {}      # URL -> file holding what the in-memory net accessor serves for it (keys of self.files
+                               # may be URLs: the model's [fs] maps URL texts as well)
+        self.net_base = None   # scheme://authority/c19/ of a document that lives on the (in-memory) network
+
+    def p(self, rel):
+        return os.path.join(self.dir, rel)
+
+    def n(self, name):
+        """globally unique canary basename"""
+        return "%s_%s" % (self.tag, name)
+
+    def add(self, rel, content, kind=None, decoy=None):
+        path = self.p(rel)
+        self.files[path] = content
+        if kind:
+            self.kinds[path] = kind
+        if decoy:
+            self.decoys[path] = decoy
+        return path
+
+    def setdoc(self, rel, doc, sys_form=None):
+        sys_form = sys_form or Scn.FORM
+        self.docpath = self.p(rel)
+        doc = dict(doc)
+        doc["sys"] = self.docpath if sys_form == "path" else "file://" + urllib.parse.quote(self.docpath, safe="/")
+        self.doc = doc
+
+    def add_net(self, rel, content, kind=None):
+        """a resource of a network document: served for <net_base><tag>/<rel>, stored under <dir>/<rel>"""
+        url = self.net_base + self.tag + "/" + rel
+        self.files[url] = content
+        self.netpath[url] = self.p(rel)
+        if kind:
+            self.kinds[url] = kind
+        return url
+
+    def setdoc_net(self, rel, doc):
+        doc = dict(doc)
+        doc["sys"] = self.net_base + self.tag + "/" + rel
+        self.doc = doc
+        self.docpath = doc["sys"]              # what the oracle expects as first resource touched
+        self.realdoc = self.p(rel)
+        self.netpath[doc["sys"]] = self.realdoc
+
+    def serve_lines(self):
+        return ["serve %s %s" % (u, p) for u, p in sorted(self.netpath.items())]
+
+    def write(self):
+        realdoc = getattr(self, "realdoc", self.docpath)
+        os.makedirs(os.path.dirname(realdoc), exist_ok=True)
+        with open(realdoc, "w", encoding="utf-8") as f:
+            f.write(xml_doc(self.doc))
+        for key, c in self.files.items():
+            path = self.netpath.get(key, key)
+            os.makedirs(os.path.dirname(path), exist_ok=True)
+            with open(path, "w", encoding="utf-8") as f:
+                f.write(xml_content(c))
+        return
         for path, c in self.files.items():
             os.makedirs(os.path.dirname(path), exist_ok=True)
             with open(path, "w", encoding="utf-8") as f:
@@ -405,6 +515,42 @@ def scenarios1(root):
                          "body": [R("lit"), R("u8")]}, sys_form="url")
     out.append(s)
 
+    # 17/18. documents that live on a server with user, password and an explicit non-default port: every relative
+    # reference (path-relative, parent-relative, absolute-path, from nested entities, schema hints and includes) must be
+    # requested from exactly that authority.  An in-memory net accessor records the URLs; nothing touches the network.
+    for tag, nb in (("s17", "http://usr:pw@127.0.0.1:8080/c19/"), ("s18", "ftp://ftp.c19.example:2121/c19/")):
+        s = Scn(root, tag, "document on %s: relative references inherit user, password, host and port" % nb)
+        s.net_base = nb
+        abs_e2 = "/c19/" + s.tag + "/abs/" + s.n("e2.ent")
+        s.add_net("dtd/" + s.n("m.dtd"), ("D", [("G", "e1", ("X", "", "../ent/" + s.n("e1.ent"))),
+                                              ("G", "e2", ("X", "", abs_e2)),
+                                              ("E", "p1", ("X", "", "sub/" + s.n("p1.pe"))), ("P", "p1")]), kind="dtd")
+        s.add_net("dtd/sub/" + s.n("p1.pe"), ("D", [("G", "e3", ("X", "", "./" + s.n("e3.ent")))]), kind="pe")
+        s.add_net("ent/" + s.n("e1.ent"), ("N", ["T", R("e3")]))
+        s.add_net("abs/" + s.n("e2.ent"), ("N", ["T"]))
+        s.add_net("dtd/sub/" + s.n("e3.ent"), ("N", ["T"]))
+        s.add_net("xsd/" + s.n("a.xsd"), ("S", "urn:c19:net", [("inc", "", "inc/" + s.n("b.xsd"))]))
+        s.add_net("xsd/inc/" + s.n("b.xsd"), ("S", "urn:c19:net", []))
+        s.setdoc_net("docs/" + s.n("main.xml"), {"doctype": {"ext": ("", "../dtd/" + s.n("m.dtd")), "int": None},
+                                                 "hints": [("urn:c19:net", "../xsd/" + s.n("a.xsd"))],
+                                                 "body": [R("e1"), R("e2")]})
+        out.append(s)
+
+    # c1-c3: the three DOCTYPE shapes of the cached-grammar matrix
+    s = Scn(root, "c01", "external subset, no internal subset (the shape useCachedGrammarInParse looks up in the pool)")
+    s.add("dtd/" + s.n("m.dtd"), ("D", [("G", "k", ("I", ["T"])), ("G", "e1", ("X", "", s.n("e1.ent"))), ("A", ["T", R("k")])]))
+    s.add("dtd/" + s.n("e1.ent"), ("N", ["T"]))
+    s.setdoc("doc.xml", {"doctype": {"ext": ("-//C19//c1", "dtd/" + s.n("m.dtd")), "int": None}, "body": ["T", R("k"), R("e1")]})
+    out.append(s)
+    s = Scn(root, "c02", "external and internal subset")
+    s.add("dtd/" + s.n("m.dtd"), ("D", [("G", "e1", ("X", "", s.n("e1.ent")))]))
+    s.add("dtd/" + s.n("e1.ent"), ("N", ["T"]))
+    s.setdoc("doc.xml", {"doctype": {"ext": ("", "dtd/" + s.n("m.dtd")), "int": [("G", "k", ("I", ["T"]))]}, "body": [R("k"), R("e1")]})
+    out.append(s)
+    s = Scn(root, "c03", "no DOCTYPE")
+    s.setdoc("doc.xml", {"body": ["T"]})
+    out.append(s)
+
     # 12. no references at all (nothing may be touched in any configuration)
     s = Scn(root, "s12", "document without external references")
     s.setdoc("doc.xml", {"doctype": {"ext": None, "int": [("G", "k", ("I", ["T"]))]}, "body": [R("k")]})
@@ -416,7 +562,7 @@ def scenarios1(root):
 
 # which entity holds the declaration / reference of each canary (None = the document entity); a.xsd is also
 # referenced from b.xsd and c.xsd (loops), which the oracle accepts as additional parents
-PARENTS = {'s01': {'main.dtd': None, 'p1.pe': 'main.dtd', 'e1.ent': 'main.dtd', 'e2.ent': 'p1.pe'}, 's02': {'p.pe': None, 'e1.ent': None, 'e3.ent': 'p.pe'}, 's03': {'u.dtd': None, 'e1.ent': 'u.dtd'}, 's04': {'h.dtd': None}, 's05': {'h.ent': None}, 's06': {'a.xsd': None, 'b.xsd': 'a.xsd', 'c.xsd': 'a.xsd', 'n.xsd': None}, 's07': {'a.xsd': None, 'n.xsd': None, 'h.xsd': 'n.xsd', 'm.dtd': None, 'e1.ent': 'm.dtd'}, 's08': {'e1.ent': None}, 's09': {'e1.ent': 'm.dtd', 'm.dtd': None}, 's10': {'m.dtd': None, 'gone.ent': 'm.dtd', 'gone.xsd': None}, 's11': {'l1.dtd': None, 'l2.pe': 'l1.dtd', 'e.ent': 'l2.pe', 'f.ent': None}, 's12': {}, 's14': {}, 's15': {}, 's16': {}, 's13': {'top.xsd': None, 'inc.xsd': 'top.xsd', 'imp.xsd': 'top.xsd', 'red.xsd': 'top.xsd', 'inc2.xsd': 'inc.xsd'}}
+PARENTS = {'s01': {'main.dtd': None, 'p1.pe': 'main.dtd', 'e1.ent': 'main.dtd', 'e2.ent': 'p1.pe'}, 's02': {'p.pe': None, 'e1.ent': None, 'e3.ent': 'p.pe'}, 's03': {'u.dtd': None, 'e1.ent': 'u.dtd'}, 's04': {'h.dtd': None}, 's05': {'h.ent': None}, 's06': {'a.xsd': None, 'b.xsd': 'a.xsd', 'c.xsd': 'a.xsd', 'n.xsd': None}, 's07': {'a.xsd': None, 'n.xsd': None, 'h.xsd': 'n.xsd', 'm.dtd': None, 'e1.ent': 'm.dtd'}, 's08': {'e1.ent': None}, 's09': {'e1.ent': 'm.dtd', 'm.dtd': None}, 's10': {'m.dtd': None, 'gone.ent': 'm.dtd', 'gone.xsd': None}, 's11': {'l1.dtd': None, 'l2.pe': 'l1.dtd', 'e.ent': 'l2.pe', 'f.ent': None}, 's12': {}, 'c01': {}, 'c02': {}, 'c03': {}, 's17': {}, 's18': {}, 's14': {}, 's15': {}, 's16': {}, 's13': {'top.xsd': None, 'inc.xsd': 'top.xsd', 'imp.xsd': 'top.xsd', 'red.xsd': 'top.xsd', 'inc2.xsd': 'inc.xsd'}}
 EXTRA_PARENTS = {'s06': {'a.xsd': ['b.xsd', 'c.xsd']}}
 
 
@@ -456,6 +602,17 @@ def limit_docs(root):
         mk("%d references in an attribute value, 1 in content" % n, [e0], [[R("e0")] * n], [R("e0")], n + 1)
     mk("attribute values and content mixed", [e0, ("G", "e1", ("I", [R("e0"), R("e0")]))],
        [[R("e1")], ["T", R("e0")]], [R("e1"), "T", R("e0")], 3 + 1 + 3 + 1)
+    # references nested below an attribute value, below an attribute default, and below both
+    for n in (1, 2, 3, 4):
+        chain = [e0] + [("G", "e%d" % i, ("I", ["T", R("e%d" % (i - 1))])) for i in range(1, n + 1)]
+        tree = [e0] + [("G", "e%d" % i, ("I", [R("e%d" % (i - 1))] * 2)) for i in range(1, n + 1)]
+        mk("chain of depth %d inside an attribute value" % (n + 1), chain, [[R("e%d" % n)]], ["T"], n + 1)
+        mk("binary tree of depth %d inside an attribute value" % (n + 1), tree, [["T", R("e%d" % n)]], ["T"], 2 ** (n + 1) - 1)
+        mk("chain of depth %d inside an attribute default" % (n + 1), chain + [("A", [R("e%d" % n)])], [], ["T"], 0,
+           dtd_side=n + 1)
+        mk("tree of depth %d inside an attribute default, chain inside a value and in content" % (n + 1),
+           tree + [("A", ["T", R("e%d" % n)])], [[R("e%d" % min(n, 2))]], [R("e1")],
+           (2 ** (min(n, 2) + 1) - 1) + 3, dtd_side=2 ** (n + 1) - 1)
     # recursion cycles of every length 1..6, entered from content, from an attribute value
     for n in range(1, 7):
         decls = [("G", "c%d" % i, ("I", ["T", R("c%d" % ((i + 1) % n))])) for i in range(n)]
@@ -516,6 +673,13 @@ def req(api, scn, val, ds, ls, ld, dis, su, lim, res, s):
     return "parse %s %s %s %s %s %s %s %s %s %s %s %s %s" % (
         api, scn, val, ds, ls, ld, dis, su, "-" if lim is None else lim, res, s.doc["sys"], ser_doc(s.doc),
         ser_fs(s.files))
+
+
+def creq(a, uc, primed, s):
+    """parse with useCachedGrammarInParse = uc, on a parser whose grammar pool was (primed) / was not filled by a
+    previous parse of the same document with cacheGrammarFromParse"""
+    f = req(*a, s).split(" ")
+    return " ".join(["cparse"] + f[1:11] + [uc, primed] + f[11:])
 
 
 SCANNERS = ["IG", "DG", "SG", "WF"]
@@ -601,16 +765,27 @@ def spec_check(orc, a, s, ans):
     has_subset = dt is not None and (dt.get("ext") is not None or dt.get("int") is not None)
     ev = ans["events"]
     docpath = s.docpath
-    opens = [(i, e[2:-1]) for i, e in enumerate(ev) if e.startswith("O(")]
+    opens = [(i, e[2:-1]) for i, e in enumerate(ev) if e.startswith("O(") or e.startswith("N(")]
     if not opens or opens[0][1] != docpath:
-        bad.append(("doc", "the document entity itself was not the first file opened"))
+        bad.append(("doc", "the document entity itself was not the first resource touched"))
+    if s.net_base:
+        # RFC 2396 5.2 step 4: no reference of this document has an authority of its own, so every request must go to
+        # the scheme and authority (userinfo@host:port, as one unit) of the document's URL
+        auth = lambda u: u.split("://", 1)[0] + "://" + re.split(r"[/?#]", u.split("://", 1)[1])[0] if "://" in u else None
+        for i, name in opens[1:]:
+            if ev[i].startswith("N(") and auth(name) != auth(docpath):
+                bad.append(("authority", "%s was requested although the document lives on %s" % (name, auth(docpath))))
     pairs = []
     for i, path in opens[1:]:
         if path == docpath:
             continue
         kind = kind_of_file(s, path)
+        if kind is None and ev[i].startswith("N("):
+            # a network identifier whose canary is not served (nothing listens there): classified by its base name
+            same = [p for p in s.files if os.path.basename(p) == os.path.basename(path)]
+            kind = kind_of_file(s, same[0]) if same and not s.net_base else None
         if kind is None:
-            bad.append(("foreign", "a file that the document does not reference was opened: " + path))
+            bad.append(("foreign", "a resource that the document does not reference was fetched: " + path))
             continue
         if path in s.decoys:
             if s.decoys[path] == "latin1":
@@ -707,6 +882,8 @@ def build_cases(ctx, root):
                         for res in RES:
                             if res in ("src", "top") and s.tag in ("s14", "s15", "s16"):
                                 continue      # the canary resolver finds files by their literal base name
+                            if res == "top" and s.net_base:
+                                continue      # `top` hands out real paths as system ids
                             add("cfg-space", (api, scn, val, ds, ls, ld, dis, "0", None, res), s)
         if s.doc["sys"].startswith("file:"):
             for scn in ("IG", "SG"):
@@ -714,6 +891,18 @@ def build_cases(ctx, root):
                     for res in (RES[:2] if s.base_tag in ("s14", "s15", "s16") else RES):
                         for api in ("sax", "dom"):
                             add("std-uri", (api, scn, "auto", "1", "1", "1", dis, "1", None, res), s)
+    # 1b. the gate matrix around useCachedGrammarInParse (the refuter of the T-gate obligation): scanner x useCached x
+    # pool primed or not x loadExternalDTD x validation scheme x DOCTYPE shape x resolver x disableDefault x API
+    for s in scs:
+        if not s.tag.startswith("c0"):
+            continue
+        for api in ("sax", "dom"):
+            for scn in SCANNERS:
+                for val in VALS:
+                    for ld, dis, uc, pr in itertools.product("01", repeat=4):
+                        for res in RES[:3]:
+                            a = (api, scn, val, "0", "0", ld, dis, "0", None, res)
+                            cases.append(("cache-matrix", a, s, creq(a, uc, pr, s)))
     # 2. expansion limits L-1, L, L+1 around what each document needs; recursion cycles
     for s in lds:
         if s.cyc:
@@ -733,7 +922,7 @@ def build_cases(ctx, root):
         su = rng.choice("01") if s.doc["sys"].startswith("file:") else "0"
         a = (rng.choice(("sax", "dom")), rng.choice(SCANNERS), rng.choice(VALS), rng.choice("01"), rng.choice("01"),
              rng.choice("01"), rng.choice("01"), su, rng.choice([None, 0, 1, 2, 3, 6, 50]),
-             rng.choice(RES[:2] if s.base_tag in ("s14", "s15", "s16") else RES))
+             rng.choice(RES[:2] if s.base_tag in ("s14", "s15", "s16") or s.net_base else RES))
         add("seeded", a, s)
     return scs, lds, cases
 
@@ -743,6 +932,11 @@ RFC_C = ["g:h", "g", "./g", "g/", "/g", "//g", "?y", "g?y", "#s", "g#s", "g?y#s"
          "..g", "./../g", "./g/.", "g/./h", "g/../h", "g;x=1/./y", "g;x=1/../y", "g?y/./x", "g?y/../x", "g#s/./x",
          "g#s/../x", "http:g"]
 URI_BASES = ["http://a/b/c/d;p?q", "file:///w/d1/doc.xml", "/w/d1/doc.xml", "/w/d1/", "d1/doc.xml", "http://h/x/y/z.xml"]
+# bases whose authority has user, password and/or an explicit port (RFC 2396 5.2 step 4: inherited as one unit);
+# XMLUri's authority model does not cover these, so they go to the XMLURL / default-source operations only
+AUTH_BASES = ["http://usr:pw@host.example:8080/dir/sub/doc.xml", "http://usr@h:8080/a/b", "ftp://ftp.example:2121/pub/d/doc.xml",
+              "https://h.example:8443/x/y?q#f", "http://h:80/x/doc.xml", "file://fh:99/w/doc.xml", "http://u:p@h/only/user.xml"
+              ]   # (an IPv6 literal host is not accepted by XMLURL at all: setURL fails, the model agrees)
 KF2_ID = "C19-F2"
 KF2_TEXT = ("relative-reference resolution deviates from RFC 2396 section 5.2 on abnormal references: XMLURL/weavePaths "
             "and LocalFileInputSource keep a trailing '.'/'..' segment ('.' against http://a/b/c/d;p?q gives "
@@ -785,9 +979,21 @@ def uri_cases(ctx):
         for r in refs:
             for op in ("localfile", "xmlurl", "xmluri", "default0", "default1"):
                 out.append((op, base, r))
+    for base in AUTH_BASES:
+        for r in refs:
+            for op in ("xmlurl", "xmlurlparts", "default0", "default1"):
+                out.append((op, base, r))
     for r in refs:
         out.append(("normalize", "-", r))
     return out
+
+
+def url_authority(u):
+    """scheme://authority of a URL text, authority = userinfo@host:port as one unit"""
+    if "://" not in u:
+        return None
+    sch, rest = u.split("://", 1)
+    return sch + "://" + re.split(r"[/?#]", rest)[0]
 
 
 def base_depth(base):
@@ -970,6 +1176,7 @@ def run(ctx):
 
 def _correspond(ctx, xm, xh, root, proof_broken, failed, proof_out, gate_report):
     scs, lds, cases = build_cases(ctx, root)
+    all_cases = cases
     if ctx.replay:
         r = json.load(open(ctx.replay))
         want = r.get("request")
@@ -979,7 +1186,17 @@ def _correspond(ctx, xm, xh, root, proof_broken, failed, proof_out, gate_report)
             # keep the companion run without limit (the "unaffected" clause compares with it)
             cases = hit + [c for c in cases if c[1][8] is None and c[2] is hit[0][2] and
                            (c[1][:8], c[1][9]) == (hit[0][1][:8], hit[0][1][9]) and c is not hit[0]][:1]
-    lines = ["root " + root] + [c[3] for c in cases]
+    serve = [l for s in scs for l in s.serve_lines()]
+    # library switch for finding C19-F1: ask the library itself, with the witness (limit 2, six %p; references), whether
+    # its DTD scanner counts expansions; the model is run with the same switch (c_countDtd) and the Spec stays the same
+    wit = [c for c in all_cases if c[0] == "witness-F1"][:1]
+    f1_fixed = False
+    if wit:
+        rcw, outw, _ = run_bin(xh, ["root " + root, wit[0][3]])
+        f1_fixed = len(outw) == 2 and "fatal=Limit" in outw[1]
+    ctx.coverage["library_switches"] = {"C19-F1 DTD scanner counts expansions (c_countDtd)": f1_fixed}
+    serve.append("switch countdtd %d" % (1 if f1_fixed else 0))
+    lines = ["root " + root] + serve + [c[3] for c in cases]
     t1 = time.time()
     rc1, impl, err1 = run_bin(xh, lines)
     t2 = time.time()
@@ -994,7 +1211,7 @@ def _correspond(ctx, xm, xh, root, proof_broken, failed, proof_out, gate_report)
     if rc2 != 0 or len(model) != len(lines):
         ctx.violation("model-crash", {"what": "model driver crashed", "stderr": err2[-2000:]}, no_input=True)
         return
-    impl, model = [canon(x) for x in impl[1:]], [canon(x) for x in model[1:]]
+    impl, model = [canon(x) for x in impl[1 + len(serve):]], [canon(x) for x in model[1 + len(serve):]]
     orc = Oracle(xm)
     kinds = {}
     divergences = []
@@ -1064,6 +1281,12 @@ def _correspond(ctx, xm, xh, root, proof_broken, failed, proof_out, gate_report)
         agree = i == m
         if not agree:
             udiv += 1
+        if op == "xmlurl" and b in AUTH_BASES and i not in ("NONE",) and not re.match(r"^([A-Za-z][A-Za-z0-9+.-]*:|//)", r) \
+                and "\\" not in i:
+            # Spec (RFC 2396 5.2 step 4): a reference without scheme/authority inherits scheme and authority of the base
+            if url_authority(i) != url_authority(want) or url_authority(want) != url_authority(b):
+                spec_fail.append(("uri", line, i, m, [("authority", "resolved to %s: authority differs from the base's %s"
+                                                       % (i, url_authority(b)))], agree))
         if op not in ("localfile", "xmlurl", "xmluri"):
             if not agree:
                 divergences.append(("uri", line, i, m, None, None, None))
@@ -1098,8 +1321,10 @@ def _correspond(ctx, xm, xh, root, proof_broken, failed, proof_out, gate_report)
         hcases = [hcases[k] for k in keep[:1]]
         hlines = [hlines[k] for k in keep[:1]]
     if hlines:
-        rch, himpl, herr = run_bin(xh, ["root " + root] + hlines)
-        rcm, hmodel, _ = run_bin(xm, ["root " + root] + hlines)
+        sw = "switch countdtd %d" % (1 if f1_fixed else 0)
+        rch, himpl, herr = run_bin(xh, ["root " + root, sw] + hlines)
+        rcm, hmodel, _ = run_bin(xm, ["root " + root, sw] + hlines)
+        himpl, hmodel = himpl[1:], hmodel[1:]
         if rch != 0 or len(himpl) != len(hlines) + 1:
             k = max(len(himpl) - 1, 0)
             ctx.violation("harness-crash", {"what": "harness crashed on a history", "rc": rch, "stderr": herr[-1500:],
